@@ -26,6 +26,8 @@ Why(e) ==
   ELSE IF e.stuck # <<>> THEN "caller-stuck"
   ELSE IF \E k \in 1..Len(e.orders) : ~Increasing(e.orders[k]) THEN "poster-order"
   ELSE IF \E k \in 1..Len(e.bsent) : e.bgot[k] < e.bsent[k] THEN "blocking-post-dropped"
+  \* resize hand-off (ResizeFlag!NoLostResize): once things are quiet the library works with the terminal's size
+  ELSE IF e.rwant # <<>> /\ e.rgot # e.rwant THEN "resize-request-lost"
   ELSE "ok"
 
 Next ==
